@@ -15,6 +15,7 @@ import (
 	"sync"
 	"time"
 
+	"github.com/samber/ro/internal/verifrt/ctl"
 	vtime "github.com/samber/ro/internal/verifrt/vtime"
 )
 
@@ -23,18 +24,12 @@ type vUFRow struct {
 	Res  int64   `json:"res"`
 }
 
-type vSwitch struct {
-	From   int    `json:"from"`
-	H      int    `json:"h"`
-	Reason string `json:"reason"`
-	To     int    `json:"to"`
-}
-
 type vCase struct {
 	Harness  string              `json:"harness"`
 	Inputs   map[string]int64    `json:"inputs"`
 	UF       map[string][]vUFRow `json:"uf"`
-	Switches []vSwitch           `json:"switches"`
+	Switches []ctl.Switch        `json:"switches"`
+	Lib      bool                `json:"lib"` // the library is compiled against the sync/atomic shims
 	Advances []int64             `json:"advances"`
 	ID       string              `json:"id"`
 }
@@ -64,8 +59,6 @@ type vState struct {
 	trace     []vTraceEv
 	reached   []string
 	failed    *vAssertFail
-	// threads
-	ctl *vCtl
 }
 
 var vS *vState
@@ -160,232 +153,44 @@ func vIte(c bool, a, b int64) int64 {
 }
 
 // ---------------------------------------------------------------------------
-// Cooperative controller for harness threads: exactly one controlled goroutine
-// holds the baton; hand-overs follow the switch list recorded by the engine.
+// Threads: the cooperative replay controller lives in internal/verifrt/ctl (shared with the
+// sync/atomic/time shims); with no recorded schedule it is inactive and goroutines run freely.
 
-type vThr struct {
-	id     int
-	resume chan struct{}
-	h      int // harness-level points passed
-	done   bool
-}
-
-type vCtl struct {
-	mu      sync.Mutex
-	thr     []*vThr
-	byG     map[uint64]*vThr
-	cur     int
-	sw      []vSwitch
-	pos     int
-	free    bool // no schedule recorded: run freely
-	lastAct time.Time
-}
-
-func vGoID() uint64 {
-	var buf [64]byte
-	n := runtime.Stack(buf[:], false)
-	// "goroutine 123 ["
-	var id uint64
-	for _, c := range buf[10:n] {
-		if c < '0' || c > '9' {
-			break
-		}
-		id = id*10 + uint64(c-'0')
-	}
-	return id
-}
-
-func (c *vCtl) me() *vThr {
-	c.mu.Lock()
-	defer c.mu.Unlock()
-	return c.byG[vGoID()]
-}
-
-func vThread() int {
-	if vS == nil || vS.ctl == nil {
-		return 0
-	}
-	if t := vS.ctl.me(); t != nil {
-		return t.id
-	}
-	return -1
-}
-
-// head returns the next recorded switch concerning harness threads.
-func (c *vCtl) head() *vSwitch {
-	for c.pos < len(c.sw) {
-		s := &c.sw[c.pos]
-		if s.From < len(c.thr)+1 {
-			return s
-		}
-		c.pos++
-	}
-	return nil
-}
-
-// point is a harness-level scheduling point of thread t.
-func (c *vCtl) point(t *vThr, reason string) {
-	c.mu.Lock()
-	t.h++
-	c.lastAct = time.Now()
-	s := c.head()
-	if s == nil || s.From != t.id || (s.Reason != reason && !(reason == "yield" && s.Reason == "preempt")) || s.H != t.h {
-		c.mu.Unlock()
-		return
-	}
-	c.pos++
-	to := s.To
-	c.mu.Unlock()
-	c.handover(t, to, true)
-}
-
-// watchdog: a controlled goroutine that holds the baton but is blocked inside a
-// real (unshimmed) operation cannot report it; when the recorded schedule says
-// that the baton holder blocks next and nothing has moved for a while, the
-// hand-over is performed on its behalf.
-func (c *vCtl) watchdog(stop chan struct{}) {
-	for {
-		select {
-		case <-stop:
-			return
-		case <-time.After(2 * time.Millisecond):
-		}
-		c.mu.Lock()
-		s := c.head()
-		if s != nil && s.Reason == "block" && s.From == c.cur && time.Since(c.lastAct) > 25*time.Millisecond {
-			c.pos++
-			to := s.To
-			c.cur = to
-			c.lastAct = time.Now()
-			var target *vThr
-			if to >= 0 && to < len(c.thr) {
-				target = c.thr[to]
-			}
-			c.mu.Unlock()
-			if target != nil && !target.done {
-				select {
-				case target.resume <- struct{}{}:
-				default:
-				}
-			}
-			continue
-		}
-		c.mu.Unlock()
-	}
-}
-
-func (c *vCtl) handover(from *vThr, to int, wait bool) {
-	if from != nil {
-		// a token received while this goroutine was running anyway is stale
-		select {
-		case <-from.resume:
-		default:
-		}
-	}
-	c.mu.Lock()
-	var target *vThr
-	if to >= 0 && to < len(c.thr) {
-		target = c.thr[to]
-	}
-	c.cur = to
-	c.lastAct = time.Now()
-	c.mu.Unlock()
-	if target != nil && !target.done {
-		select {
-		case target.resume <- struct{}{}:
-		default:
-		}
-	}
-	if wait && from != nil {
-		select {
-		case <-from.resume:
-		case <-time.After(3 * time.Second):
-			// nobody gave the baton back: continue (the run is then diverging or hanging)
-		}
-	}
-}
+func vThread() int { return ctl.ThreadID() }
 
 func vGo(f func()) {
-	c := vS.ctl
-	parent := c.me()
-	c.mu.Lock()
-	t := &vThr{id: len(c.thr), resume: make(chan struct{}, 1)}
-	c.thr = append(c.thr, t)
-	c.mu.Unlock()
-	started := make(chan struct{})
-	go func() {
-		c.mu.Lock()
-		c.byG[vGoID()] = t
-		c.mu.Unlock()
-		close(started)
-		if !c.free {
-			select {
-			case <-t.resume:
-			case <-time.After(3 * time.Second):
-			}
-		}
+	ctl.Go(func() {
 		defer func() {
-			p := recover()
-			c.mu.Lock()
-			t.done = true
-			s := c.head()
-			var to = -1
-			if s != nil && s.From == t.id && s.Reason == "end" {
-				c.pos++
-				to = s.To
-			}
-			c.mu.Unlock()
-			if p != nil {
-				if _, ok := p.(vAssertFail); !ok {
-					if _, ok := p.(vAssumeFail); !ok {
-						vS.mu.Lock()
-						if vS.failed == nil {
-							vS.failed = &vAssertFail{fmt.Sprintf("PANIC in thread %d: %v", t.id, p)}
-						}
-						vS.mu.Unlock()
-					}
+			if p := recover(); p != nil {
+				if _, ok := p.(vAssertFail); ok {
+					return
 				}
-			}
-			if to >= 0 {
-				c.handover(nil, to, false)
+				if _, ok := p.(vAssumeFail); ok {
+					return
+				}
+				vS.mu.Lock()
+				if vS.failed == nil {
+					vS.failed = &vAssertFail{fmt.Sprintf("PANIC in thread %d: %v", ctl.ThreadID(), p)}
+				}
+				vS.mu.Unlock()
 			}
 		}()
 		f()
-	}()
-	<-started
-	if parent != nil && !c.free {
-		c.point(parent, "go")
-	}
+	})
+	ctl.HPoint("go")
 }
 
 func vYield() {
-	c := vS.ctl
-	if c.free {
+	if !ctl.Active() {
 		runtime.Gosched()
 		return
 	}
-	if t := c.me(); t != nil {
-		c.point(t, "yield")
-	}
+	ctl.HPoint("yield")
 }
 
 // vQuiesce waits until the other goroutines have stopped making progress.
 func vQuiesce() {
-	c := vS.ctl
-	t := c.me()
-	if !c.free && t != nil {
-		c.mu.Lock()
-		t.h++
-		s := c.head()
-		if s != nil && s.From == t.id && s.Reason == "quiesce" && s.H == t.h {
-			c.pos++
-			to := s.To
-			c.mu.Unlock()
-			c.handover(t, to, true)
-		} else {
-			c.mu.Unlock()
-		}
-	}
+	ctl.HPoint("quiesce")
 	// let uncontrolled (library) goroutines settle
 	for i := 0; i < 20; i++ {
 		runtime.Gosched()
@@ -404,20 +209,16 @@ func vPendingTimers() int { return vtime.Pending() }
 // vRunCase runs one harness with the given model and returns what happened.
 func vRunCase(c *vCase, h func()) (out vOutcome) {
 	vS = &vState{c: c, nameCount: map[string]int{}}
-	ctl := &vCtl{byG: map[uint64]*vThr{}, sw: c.Switches, free: len(c.Switches) == 0}
-	vS.ctl = ctl
-	stopWD := make(chan struct{})
-	defer close(stopWD)
-	if !ctl.free {
-		go ctl.watchdog(stopWD)
-	}
+	stop := make(chan struct{})
+	defer close(stop)
+	defer ctl.Stop()
 	vtime.ResetClock()
 	if os.Getenv("VERIF_TIMESHIM") == "1" {
 		// "time passes when nothing can run": fire the earliest timer when the replay is idle
 		go func() {
 			for {
 				select {
-				case <-stopWD:
+				case <-stop:
 					return
 				case <-time.After(5 * time.Millisecond):
 					vtime.IdleAdvance(60 * time.Millisecond)
@@ -430,11 +231,7 @@ func vRunCase(c *vCase, h func()) (out vOutcome) {
 	done := make(chan struct{})
 	var pan interface{}
 	go func() {
-		t0 := &vThr{id: 0, resume: make(chan struct{}, 1)}
-		ctl.mu.Lock()
-		ctl.thr = append(ctl.thr, t0)
-		ctl.byG[vGoID()] = t0
-		ctl.mu.Unlock()
+		ctl.Start(c.Switches, c.Lib) // registers this goroutine as thread 0
 		defer close(done)
 		defer func() { pan = recover() }()
 		h()
